@@ -454,7 +454,26 @@ func c04Run(c *Ctx, raw json.RawMessage) {
 		c.Drift("panic raised by a function of the data itself (" + o.Site + ")")
 	case o.Panic != "":
 		c.Fail("panic@"+o.Site+":"+kc.Form, fmt.Sprintf("%s with %v panicked: %s (in %s)", src, kc.Kinds, trunc(o.Panic, 140), o.Site), cas)
+	case o.Recovered && c04BuiltinOnly(kc.Form, names):
+		// "no combination ... makes a BUILT-IN HELPER panic": the engine recovers a panicking call and reports it as an
+		// error, which keeps Render total -- but where the only code called is a built-in helper, the helper did panic
+		c.Fail("builtin-helper-panicked:"+kc.Form, fmt.Sprintf("%s with %v: a built-in helper panicked (recovered by the engine): %s", src, kc.Kinds, trunc(o.Err, 160)), cas)
 	}
+}
+
+// c04BuiltinOnly: the form calls built-in helpers only, and no value of the cell brings code of its own (functions,
+// iterators, feeders, types with methods the helper may call)
+func c04BuiltinOnly(form string, kinds []string) bool {
+	if !(strings.HasPrefix(form, "b0:") || strings.HasPrefix(form, "b1:") || strings.HasPrefix(form, "b2:") || form == "truncopts" || form == "groupiter") {
+		return false
+	}
+	for _, k := range kinds {
+		if strings.Contains(k, "func") || strings.Contains(k, "iter") || strings.Contains(k, "feeder") || strings.Contains(k, "stringer") ||
+			strings.Contains(k, "htmler") || strings.Contains(k, "interfaceable") || strings.Contains(k, "pathable") || strings.Contains(k, "time") || strings.Contains(k, "error") {
+			return false
+		}
+	}
+	return true
 }
 
 type guardCase struct {
